@@ -22,7 +22,7 @@ COMMON_ASSUMPTIONS = [
 
 
 prop('C01',
-     rules=[('TBL-ATTRS', ['markup.implicit_tag']), 'TAB-IMPLICIT', ('TBL-CONVERT', ['abbreviation']), 'TAB-OPS', 'TAB-KEYS-OPT', 'TAB-FORMATTERS', 'CENSUS', 'SIB-CARET', 'PATH-EMIT-HTML', ('PATH-STACK', ['markup']), 'PATH-PARSER-CTX', 'PATH-ONCE', ('PATH-INITORDER', ['abbreviation', 'markup'])],
+     rules=[('API-ARGSWAP', ['abbreviation', 'markup', 'config']), ('API-ONESHOT', ['abbreviation', 'markup', 'config']), ('RNG-NEGSLICE', ['abbreviation', 'markup', 'config']), ('SIB-PREDSWAP', ['abbreviation', 'markup', 'config']), ('OWN-GLOBAL', ['abbreviation', 'markup', 'config']), ('TBL-ATTRS', ['markup.implicit_tag']), 'TAB-IMPLICIT', ('TBL-CONVERT', ['abbreviation']), 'TAB-OPS', 'TAB-KEYS-OPT', 'TAB-FORMATTERS', 'CENSUS', 'SIB-CARET', 'PATH-EMIT-HTML', ('PATH-STACK', ['markup']), 'PATH-PARSER-CTX', 'PATH-ONCE', ('PATH-INITORDER', ['abbreviation', 'markup'])],
      explanation='Decides, for every path of the code, the structural clauses of the tree property: operator characters and kinds '
                  'agree between tokenizer, parser and printer (D), implicit names come from the documented table with the span/div '
                  'fallback (D). The compositional claim "exactly the denoted tree" is a runtime-value clause and is not decided.',
@@ -30,35 +30,35 @@ prop('C01',
      technique='table agreement over constants read from the syntax tree; decision-table extraction of pure helpers')
 
 prop('C02',
-     rules=['OWN-TOKTREE', ('TBL-CONVERT', ['abbreviation']), 'NUM-LINEAR', ('NUM-LEFTPAD', ['abbreviation']), 'TAB-KEYS-PARSE', ('EXC-NUMCONV', ['abbreviation.tokenizer']), ('PATH-STACK', ['abbreviation']), 'PATH-ONCE', 'PIN-WRAPTEXT'],
+     rules=[('API-ARGSWAP', ['abbreviation', 'markup']), ('API-ONESHOT', ['abbreviation', 'markup']), ('RNG-NEGSLICE', ['abbreviation', 'markup']), ('SIB-PREDSWAP', ['abbreviation', 'markup']), ('OWN-GLOBAL', ['abbreviation', 'markup']), 'OWN-TOKTREE', ('TBL-CONVERT', ['abbreviation']), 'NUM-LINEAR', ('NUM-LEFTPAD', ['abbreviation']), 'TAB-KEYS-PARSE', ('EXC-NUMCONV', ['abbreviation.tokenizer']), ('PATH-STACK', ['abbreviation']), 'PATH-ONCE', 'PIN-WRAPTEXT'],
      explanation='Counter formulas are decided symbolically: forward base+i, reverse base+count-i-1 as linear normal forms, innermost '
                  'repeater, clamped parent index, left zero padding without truncation (D); maxRepeat reaches the converter under the key it reads (D).',
      not_decided=['exactly N copies under a global maxRepeat budget for nested repeaters (value-level)', 'tokenization of every $/@ form'],
      technique='linear normal forms of integer expressions; reader/writer key agreement')
 
 prop('C03',
-     rules=[('TBL-CONFIG', ['config']), 'ORD-MERGE', 'TBL-ATTRS', ('TBL-OUTPUT', ['output_stream', 'markup.format.utils']), 'OWN-TOKTREE', 'TBL-CONVERT', ('TAB-MEMBER', ['markup', 'abbreviation']), 'OWN-CACHEUSE', ('COV-MERGE', ['markup.snippets']), 'TAB-OPS', 'TAB-BRK', 'TAB-QUOTE', 'TAB-KEYS-OPT', 'DEC-BOOL', 'DEC-MERGEDECL', 'DEC-MULTIVALUE', 'SIB-CARET', 'SIB-QUOTE', 'OWN-ASTLIST', 'PATH-EMIT-ATTR', ('PATH-INITORDER', ['abbreviation', 'markup'])],
+     rules=[('API-ARGSWAP', ['abbreviation', 'markup', 'config', 'output_stream']), ('API-ONESHOT', ['abbreviation', 'markup', 'config', 'output_stream']), ('RNG-NEGSLICE', ['abbreviation', 'markup', 'config', 'output_stream']), ('SIB-PREDSWAP', ['abbreviation', 'markup', 'config', 'output_stream']), ('OWN-GLOBAL', ['abbreviation', 'markup', 'config']), ('TBL-CONFIG', ['config']), 'ORD-MERGE', 'TBL-ATTRS', ('TBL-OUTPUT', ['output_stream', 'markup.format.utils']), 'OWN-TOKTREE', 'TBL-CONVERT', ('TAB-MEMBER', ['markup', 'abbreviation']), 'OWN-CACHEUSE', ('COV-MERGE', ['markup.snippets']), 'TAB-OPS', 'TAB-BRK', 'TAB-QUOTE', 'TAB-KEYS-OPT', 'DEC-BOOL', 'DEC-MERGEDECL', 'DEC-MULTIVALUE', 'SIB-CARET', 'SIB-QUOTE', 'OWN-ASTLIST', 'PATH-EMIT-ATTR', ('PATH-INITORDER', ['abbreviation', 'markup'])],
      explanation='Shorthand/bracket/quote characters agree with token kinds and with what is printed back inside values (D); option names '
                  'exist (D); boolean / implied / quote / case decisions are extracted as complete decision tables (N).',
      not_decided=['merge results for arbitrary orders and duplicates, reverse mode, name mapping (value-level)'],
      technique='table agreement; decision-table extraction over the complete finite domain of the decision variables')
 
 prop('C04',
-     rules=[('TBL-CONVERT', ['abbreviation']), 'TBL-LINES', ('EXC-NEXT', ['abbreviation']), 'EXC-VISITOR', 'TAB-OPS', 'TAB-BRK', 'TAB-QUOTE', ('EXC-FMT', ['abbreviation']), ('CNT-DEPTH', ['abbreviation']), 'API-SPLITLINES', 'SIB-SPLITLINES', 'SIB-QUOTE', 'PATH-EMIT-HTML', 'PATH-EMIT-INDENT', 'EXC-RET-STR', 'DEC-TOKCTX', 'PIN-WRAPTEXT', ('SIB-ESCAPE', ['abbreviation']), ('SCN-ESCAPE', ['abbreviation', 'scanner_utils']), ('DEC-CHARCLASS', ['abbreviation', 'scanner_utils'])],
+     rules=[('API-ARGSWAP', ['abbreviation', 'markup', 'output_stream', 'scanner_utils']), ('API-ONESHOT', ['abbreviation', 'markup', 'output_stream', 'scanner_utils']), ('RNG-NEGSLICE', ['abbreviation', 'markup', 'output_stream', 'scanner_utils']), ('SIB-PREDSWAP', ['abbreviation', 'markup', 'output_stream', 'scanner_utils']), ('OWN-GLOBAL', ['abbreviation', 'markup']), ('TBL-CONVERT', ['abbreviation']), 'TBL-LINES', ('EXC-NEXT', ['abbreviation']), 'EXC-VISITOR', 'TAB-OPS', 'TAB-BRK', 'TAB-QUOTE', ('EXC-FMT', ['abbreviation']), ('CNT-DEPTH', ['abbreviation']), 'API-SPLITLINES', 'SIB-SPLITLINES', 'SIB-QUOTE', 'PATH-EMIT-HTML', 'PATH-EMIT-INDENT', 'EXC-RET-STR', 'DEC-TOKCTX', 'PIN-WRAPTEXT', ('SIB-ESCAPE', ['abbreviation']), ('SCN-ESCAPE', ['abbreviation', 'scanner_utils']), ('DEC-CHARCLASS', ['abbreviation', 'scanner_utils'])],
      explanation='Every structural character that can occur inside text has a printer that gives the same character back (D at table level).',
      not_decided=['escape handling, nested brace extraction, placement of wrap text at the deepest node (value-level)',
                   'str.splitlines() also splits on VT/FF/FS/GS/RS/NEL/LS/PS (recorded as known finding by rule API-SPLITLINES when built)'],
      technique='visitor exhaustiveness and table agreement')
 
 prop('C05',
-     rules=[('TBL-CONFIG', ['config']), 'ORD-MERGE', 'TBL-CSSABBR', ('TBL-CONFIG', ['stylesheet.resolve_gradient', 'stylesheet.wrap_with_field', 'stylesheet.has_field']), ('TBL-NUMBER', ['css_abbreviation']), 'TBL-CSSVALUE', ('NUM-LEFTPAD', ['stylesheet', 'css_abbreviation']), 'NUM-SHORTHEX', 'NUM-FRAC', 'DEC-UNIT', 'TAB-UNITS', 'TAB-CSSOPS', 'TAB-KEYS-OPT', ('EXC-NUMCONV', ['css_abbreviation', 'stylesheet']), ('EXC-FMT', ['stylesheet']), ('CNT-DEPTH', ['css_abbreviation']), ('DEC-CHARCLASS', ['css_abbreviation', 'scanner_utils']), ('OWN-GLOBAL', ['stylesheet'])],
+     rules=[('API-ARGSWAP', ['stylesheet', 'css_abbreviation', 'config']), ('API-ONESHOT', ['stylesheet', 'css_abbreviation', 'config']), ('RNG-NEGSLICE', ['stylesheet', 'css_abbreviation', 'config']), ('SIB-PREDSWAP', ['stylesheet', 'css_abbreviation', 'config']), ('TBL-CONFIG', ['config']), 'ORD-MERGE', 'TBL-CSSABBR', ('TBL-CONFIG', ['stylesheet.resolve_gradient', 'stylesheet.wrap_with_field', 'stylesheet.has_field']), ('TBL-NUMBER', ['css_abbreviation']), 'TBL-CSSVALUE', ('NUM-LEFTPAD', ['stylesheet', 'css_abbreviation']), 'NUM-SHORTHEX', 'NUM-FRAC', 'DEC-UNIT', 'TAB-UNITS', 'TAB-CSSOPS', 'TAB-KEYS-OPT', ('EXC-NUMCONV', ['css_abbreviation', 'stylesheet']), ('EXC-FMT', ['stylesheet']), ('CNT-DEPTH', ['css_abbreviation']), ('DEC-CHARCLASS', ['css_abbreviation', 'scanner_utils']), ('OWN-GLOBAL', ['stylesheet'])],
      explanation='Hex printing (left padding, short form only when r, g and b allow it, r-g-b order) is decided over all 256 channel values (D); '
                  'the unit decision is extracted as a complete table (N); alias/unit/separator tables are the documented ones (D).',
      not_decided=['tokenisation of number/unit/dash/colour sequences', 'frac() rounding beyond the conversion type'],
      technique='exhaustive table extraction of pure helpers; constant tables')
 
 prop('C06',
-     rules=['TBL-CSSABBR', ('TBL-CONFIG', ['stylesheet', 'config']), ('OWN-GLOBAL', ['stylesheet']), ('EXC-INDEX', ['stylesheet']), 'TBL-CSSMATCH', 'DEC-DIRECTHIT', 'TAB-SNIPKEYS', 'DEC-SCOPE', 'EXC-JOIN', 'TAB-KEYS-OPT', 'ORD-MERGE'],
+     rules=[('API-ARGSWAP', ['stylesheet', 'css_abbreviation', 'config', 'snippets']), ('API-ONESHOT', ['stylesheet', 'css_abbreviation', 'config', 'snippets']), ('RNG-NEGSLICE', ['stylesheet', 'css_abbreviation', 'config', 'snippets']), ('SIB-PREDSWAP', ['stylesheet', 'css_abbreviation', 'config', 'snippets']), ('OWN-GLOBAL', ['stylesheet', 'css_abbreviation', 'config', 'snippets']), 'TBL-CSSABBR', ('TBL-CONFIG', ['stylesheet', 'config']), ('OWN-GLOBAL', ['stylesheet']), ('EXC-INDEX', ['stylesheet']), 'TBL-CSSMATCH', 'DEC-DIRECTHIT', 'TAB-SNIPKEYS', 'DEC-SCOPE', 'EXC-JOIN', 'TAB-KEYS-OPT', 'ORD-MERGE'],
      explanation='Necessary conditions for "a key selects its own snippet": equal case-folded strings score exactly 1 before any other exit and '
                  'a score of 1 is returned immediately; no key occurs twice (also ignoring case) after | expansion (exhaustive over all 479 keys); '
                  'scope filtering is a complete decision table and is applied on every call; default-value wrapping cannot raise on numbers.',
@@ -66,7 +66,7 @@ prop('C06',
      technique='structural dominance of the direct-hit exits; exhaustive key table check')
 
 prop('C07',
-     rules=['TBL-CSSABBR', ('TBL-ATTRS', ['markup.implicit_tag']), ('TBL-CONFIG', ['stylesheet']), ('TBL-CONVERT', ['abbreviation']), ('TBL-NUMBER', ['css_abbreviation']), 'TAB-MEMBER', 'EXC-NEXT', ('PIN-WRAPTEXT', ['abbreviation.convert']), 'EXC-RAISE/expand', 'EXC-VISITOR', 'EXC-FMT', 'EXC-JOIN', 'EXC-NUMCONV', 'EXC-KEY', 'TAB-VOCAB', 'TAB-KEYS-PROFILE', 'CENSUS',
+     rules=[('API-ARGSWAP', ['abbreviation', 'css_abbreviation', 'markup', 'stylesheet', 'scanner', 'scanner_utils', 'token_scanner', 'output_stream', 'config', 'expand']), ('API-ONESHOT', ['abbreviation', 'css_abbreviation', 'markup', 'stylesheet', 'scanner', 'scanner_utils', 'token_scanner', 'output_stream', 'config', 'expand']), ('RNG-NEGSLICE', ['abbreviation', 'css_abbreviation', 'markup', 'stylesheet', 'scanner', 'scanner_utils', 'token_scanner', 'output_stream', 'config', 'expand']), ('SIB-PREDSWAP', ['abbreviation', 'css_abbreviation', 'markup', 'stylesheet', 'scanner', 'scanner_utils', 'token_scanner', 'output_stream', 'config', 'expand']), 'TBL-CSSABBR', ('TBL-ATTRS', ['markup.implicit_tag']), ('TBL-CONFIG', ['stylesheet']), ('TBL-CONVERT', ['abbreviation']), ('TBL-NUMBER', ['css_abbreviation']), 'TAB-MEMBER', 'EXC-NEXT', ('PIN-WRAPTEXT', ['abbreviation.convert']), 'EXC-RAISE/expand', 'EXC-VISITOR', 'EXC-FMT', 'EXC-JOIN', 'EXC-NUMCONV', 'EXC-KEY', 'TAB-VOCAB', 'TAB-KEYS-PROFILE', 'CENSUS',
             'SCN-CORE', ('SCN-PROGRESS', EXPAND_MODS), ('SCN-OVER', EXPAND_MODS), 'EXC-RANDINT', 'NUM-LINEAR',
             ('EXC-INDEX', ['abbreviation', 'markup', 'stylesheet', 'css_abbreviation', 'scanner', 'scanner_utils', 'token_scanner', 'config', 'output_stream', 'list_utils', 'expand', 'snippets']), 'EXC-RET-STR'],
      explanation='Explicit raises reachable from expand are one of the two parse errors (D, call graph). Implicit internal errors are decided by '
@@ -75,7 +75,7 @@ prop('C07',
      technique='call-graph reachability of raise sites; per-family exception lints with reviewed tables')
 
 prop('C08',
-     rules=[('TBL-CONFIG', ['config', 'stylesheet.parse']), 'OWN-TOKTREE', 'OWN-GLOBAL', 'OWN-DEFAULT', 'OWN-CALLER', 'OWN-RESTORE', 'OWN-CACHE', 'OWN-CACHEUSE', 'OWN-AMBIENT', 'OWN-ASTLIST', 'DEC-SCOPE', 'ORD-MERGE'],
+     rules=[('API-ARGSWAP', ['abbreviation', 'css_abbreviation', 'markup', 'stylesheet', 'config', 'expand', 'output_stream']), ('API-ONESHOT', ['abbreviation', 'css_abbreviation', 'markup', 'stylesheet', 'config', 'expand', 'output_stream']), ('RNG-NEGSLICE', ['abbreviation', 'css_abbreviation', 'markup', 'stylesheet', 'config', 'expand', 'output_stream']), ('SIB-PREDSWAP', ['abbreviation', 'css_abbreviation', 'markup', 'stylesheet', 'config', 'expand', 'output_stream']), ('TBL-CONFIG', ['config', 'stylesheet.parse']), 'OWN-TOKTREE', 'OWN-GLOBAL', 'OWN-DEFAULT', 'OWN-CALLER', 'OWN-RESTORE', 'OWN-CACHE', 'OWN-CACHEUSE', 'OWN-AMBIENT', 'OWN-ASTLIST', 'DEC-SCOPE', 'ORD-MERGE'],
      explanation='Decides purity for the state the library itself keeps or touches, on every path and call chain: no module-level object is mutated and '
                  'no module-level name assigned (D), no mutable default argument is mutated (D), nothing reachable from the caller\'s config / Config / '
                  'global config / options is mutated except the cache slot and the verified temporary override of `text`, which is restored in a finally '
@@ -87,7 +87,7 @@ prop('C08',
                   'strings and numbers are immutable; only container/object mutation is tracked'])
 
 prop('C09',
-     rules=['RNG-STRICT/html', 'TAB-VOID', 'EXC-THROWS', 'EXC-RAISE/matcher', ('RNG-STOP', ['html_matcher']), ('RNG-FRAME', ['html_matcher']), ('SCN-REST', ['html_matcher', 'scanner_utils']), ('SCN-OVER', ['html_matcher', 'scanner_utils']), ('SCN-PROGRESS', ['html_matcher', 'scanner_utils']),
+     rules=[('API-ARGSWAP', ['html_matcher', 'scanner_utils', 'scanner']), ('API-ONESHOT', ['html_matcher', 'scanner_utils', 'scanner']), ('RNG-NEGSLICE', ['html_matcher', 'scanner_utils', 'scanner']), ('SIB-PREDSWAP', ['html_matcher', 'scanner_utils', 'scanner']), ('OWN-GLOBAL', ['html_matcher', 'scanner_utils']), 'RNG-STRICT/html', 'TAB-VOID', 'EXC-THROWS', 'EXC-RAISE/matcher', ('RNG-STOP', ['html_matcher']), ('RNG-FRAME', ['html_matcher']), ('SCN-REST', ['html_matcher', 'scanner_utils']), ('SCN-OVER', ['html_matcher', 'scanner_utils']), ('SCN-PROGRESS', ['html_matcher', 'scanner_utils']),
             ('SCN-SKIP', ['html_matcher', 'scanner_utils']), ('SCN-BLIND', ['html_matcher', 'scanner_utils']), 'SIB-VOID', ('SIB-QUOTE', ['scanner_utils']), ('PATH-FLAG', ['html_matcher']), ('CNT-DEPTH', ['scanner_utils']),
             'SIB-HTMLSTACK', ('SIB-ESCAPE', ['scanner_utils']), ('SCN-ESCAPE', ['scanner_utils', 'html_matcher']), ('PIN-EXTRACT', ['html_matcher']), 'TBL-HTMLSCAN', ('DEC-CHARCLASS', ['html_matcher', 'scanner_utils'])],
      explanation='match and balanced_outward use one strict containment predicate with the same bounds (N); the void list is the HTML void set and '
@@ -96,7 +96,7 @@ prop('C09',
      technique='comparison-shape analysis; table agreement')
 
 prop('C10',
-     rules=['RNG-STRICT/css', ('RNG-SENT', ['css_matcher']), 'RNG-PAREN', ('RNG-STOP', ['css_matcher']), 'RNG-SCANSTATE', ('SCN-REST', ['css_matcher']), ('SCN-OVER', ['css_matcher']), ('SCN-PROGRESS', ['css_matcher']),
+     rules=[('API-ARGSWAP', ['css_matcher', 'scanner_utils', 'scanner']), ('API-ONESHOT', ['css_matcher', 'scanner_utils', 'scanner']), ('RNG-NEGSLICE', ['css_matcher', 'scanner_utils', 'scanner']), ('SIB-PREDSWAP', ['css_matcher', 'scanner_utils', 'scanner']), ('OWN-GLOBAL', ['css_matcher', 'scanner_utils']), 'RNG-STRICT/css', ('RNG-SENT', ['css_matcher']), 'RNG-PAREN', ('RNG-STOP', ['css_matcher']), 'RNG-SCANSTATE', ('SCN-REST', ['css_matcher']), ('SCN-OVER', ['css_matcher']), ('SCN-PROGRESS', ['css_matcher']),
             ('SCN-SKIP', ['css_matcher']), ('SCN-BLIND', ['css_matcher']), ('SIB-QUOTE', ['css_matcher']), 'RNG-TRIM', ('RNG-ORDER', ['css_matcher']), ('DEC-CHARCLASS', ['css_matcher', 'scanner_utils']), ('CNT-DEPTH', ['css_matcher']), ('SIB-ESCAPE', ['css_matcher']), ('SCN-ESCAPE', ['css_matcher', 'scanner_utils']), 'TBL-CSSSCAN'],
      explanation='Strict containment (N); arithmetic on a delimiter that may be the -1 sentinel is guarded wherever it can reach a result (N); '
                  'delimiters inside parentheses (N, known finding).',
@@ -104,20 +104,20 @@ prop('C10',
      technique='sentinel-flow analysis through callbacks; guard dominance')
 
 prop('C11',
-     rules=[('RNG-CLAMP', ['extract_abbreviation']), 'TAB-BRACEPAIRS', 'RNG-LOOKAHEAD', ('PIN-EXTRACT', ['extract_abbreviation']), ('DEC-CHARCLASS', ['extract_abbreviation', 'scanner_utils']), ('SCN-OVER', ['extract_abbreviation']), ('SCN-PROGRESS', ['extract_abbreviation']), ('SCN-REST', ['extract_abbreviation']), ('SIB-QUOTE', ['extract_abbreviation'])],
+     rules=[('API-ARGSWAP', ['extract_abbreviation', 'scanner_utils']), ('API-ONESHOT', ['extract_abbreviation', 'scanner_utils']), ('RNG-NEGSLICE', ['extract_abbreviation', 'scanner_utils']), ('SIB-PREDSWAP', ['extract_abbreviation', 'scanner_utils']), ('OWN-GLOBAL', ['extract_abbreviation']), ('RNG-CLAMP', ['extract_abbreviation']), 'TAB-BRACEPAIRS', 'RNG-LOOKAHEAD', ('PIN-EXTRACT', ['extract_abbreviation']), ('DEC-CHARCLASS', ['extract_abbreviation', 'scanner_utils']), ('SCN-OVER', ['extract_abbreviation']), ('SCN-PROGRESS', ['extract_abbreviation']), ('SCN-REST', ['extract_abbreviation']), ('SIB-QUOTE', ['extract_abbreviation'])],
      explanation='The caret position is clamped before it becomes a cursor (D); bracket pairing tables agree with the predicates that guard them (D).',
      not_decided=['the round-trip clause (backward heuristic, is_html) is value-level'],
      technique='clamp dominance; table agreement')
 
 prop('C12',
-     rules=[('TBL-CONFIG', ['config']), 'ORD-MERGE', ('TBL-OUTPUT', ['output_stream', 'markup.format.comment', 'markup.format.utils']), 'TBL-LINES', ('OWN-GLOBAL', ['markup.format', 'output_stream']), 'TAB-SELFCLOSE', 'ACC-WRITER', 'TAB-KEYS-OPT', 'OWN-RAWPUSH', 'SIB-SPLITLINES', 'PATH-LEVEL', 'PATH-EMIT-HTML', 'OWN-FMT-RO', 'OWN-ASTLIST',
+     rules=[('API-ARGSWAP', ['markup', 'output_stream', 'config']), ('API-ONESHOT', ['markup', 'output_stream', 'config']), ('RNG-NEGSLICE', ['markup', 'output_stream', 'config']), ('SIB-PREDSWAP', ['markup', 'output_stream', 'config']), ('OWN-GLOBAL', ['config', 'markup']), ('TBL-CONFIG', ['config']), 'ORD-MERGE', ('TBL-OUTPUT', ['output_stream', 'markup.format.comment', 'markup.format.utils']), 'TBL-LINES', ('OWN-GLOBAL', ['markup.format', 'output_stream']), 'TAB-SELFCLOSE', 'ACC-WRITER', 'TAB-KEYS-OPT', 'OWN-RAWPUSH', 'SIB-SPLITLINES', 'PATH-LEVEL', 'PATH-EMIT-HTML', 'OWN-FMT-RO', 'OWN-ASTLIST',
             'INF-FORMAT', 'INF-LEVEL', 'INF-COMMENT', 'INF-SELFCLOSE'],
      explanation='Self-closing style decides only the characters before > (D); newline/indent emission is newline + baseIndent + level*indent (D).',
      not_decided=['should_format\'s choice of where to break'],
      technique='decision tables; who-may-write')
 
 prop('C13',
-     rules=['TBL-OUTPUT', ('TBL-CONFIG', ['stylesheet.wrap_with_field']), 'TBL-LINES', ('INF-FORMAT', ['stylesheet.format']), 'ACC-WRITER', 'ACC-CALLBACK', 'NUM-FIELDIDX', 'SIB-CARET', 'OWN-RAWPUSH'],
+     rules=[('API-ARGSWAP', ['output_stream', 'markup.format', 'stylesheet.format']), ('API-ONESHOT', ['output_stream', 'markup.format', 'stylesheet.format']), ('RNG-NEGSLICE', ['output_stream', 'markup.format', 'stylesheet.format']), ('SIB-PREDSWAP', ['output_stream', 'markup.format', 'stylesheet.format']), ('OWN-GLOBAL', ['output_stream', 'markup.format', 'stylesheet.format']), 'TBL-OUTPUT', ('TBL-CONFIG', ['stylesheet.wrap_with_field']), 'TBL-LINES', ('INF-FORMAT', ['stylesheet.format']), 'ACC-WRITER', 'ACC-CALLBACK', 'NUM-FIELDIDX', 'SIB-CARET', 'OWN-RAWPUSH'],
      explanation='offset/line/column are written only by OutputStream in step with the appended text, callbacks get the current position and their '
                  'result is appended unmodified (D); tabstop numbers are state.field + relative index and advance by the largest index + 1 (D).',
      not_decided=['document-order numbering across a whole tree (value-level)'],
@@ -125,41 +125,41 @@ prop('C13',
      assumptions=['strings handed to raw push() contain no newline'])
 
 prop('C14',
-     rules=['ORD-MERGE', ('TBL-CONFIG', ['config']), ('TBL-ATTRS', ['markup.attributes']), 'COV-MERGE', 'TAB-SNIPKEYS', ('PATH-STACK', ['markup.snippets', 'markup.utils']), 'OWN-CACHEUSE'],
+     rules=[('API-ARGSWAP', ['markup', 'snippets', 'config', 'abbreviation']), ('API-ONESHOT', ['markup', 'snippets', 'config', 'abbreviation']), ('RNG-NEGSLICE', ['markup', 'snippets', 'config', 'abbreviation']), ('SIB-PREDSWAP', ['markup', 'snippets', 'config', 'abbreviation']), ('OWN-GLOBAL', ['markup', 'config', 'snippets', 'abbreviation']), 'ORD-MERGE', ('TBL-CONFIG', ['config']), ('TBL-ATTRS', ['markup.attributes']), 'COV-MERGE', 'TAB-SNIPKEYS', ('PATH-STACK', ['markup.snippets', 'markup.utils']), 'OWN-CACHEUSE'],
      explanation='All data written on an alias (attributes, text, repeater, self-closing mark) is transferred to every top-level node of the definition and '
                  'children go to the last-child chain (N); multi-key tables do not shadow each other (D).',
      not_decided=['"expands exactly like its definition" (value-level)'],
      technique='field coverage; splice shape')
 
 prop('C15',
-     rules=[('TBL-CONFIG', ['config']), 'ORD-MERGE', ('TBL-OUTPUT', ['output_stream', 'markup.format.utils']), 'TBL-LINES', 'INF-FMTREADERS', ('TAB-MEMBER', ['markup.format']), 'TBL-INDENT', 'TAB-KEYS-PROFILE', 'TAB-FORMATTERS', 'SIB-CARET', 'SIB-SPLITLINES', 'OWN-RAWPUSH', 'PATH-LEVEL', 'PATH-EMIT-INDENT', 'INF-LEVEL', 'PATH-EMIT-ATTR'],
+     rules=[('API-ARGSWAP', ['markup', 'output_stream']), ('API-ONESHOT', ['markup', 'output_stream']), ('RNG-NEGSLICE', ['markup', 'output_stream']), ('SIB-PREDSWAP', ['markup', 'output_stream']), ('OWN-GLOBAL', ['markup', 'output_stream', 'config']), ('TBL-CONFIG', ['config']), 'ORD-MERGE', ('TBL-OUTPUT', ['output_stream', 'markup.format.utils']), 'TBL-LINES', 'INF-FMTREADERS', ('TAB-MEMBER', ['markup.format']), 'TBL-INDENT', 'TAB-KEYS-PROFILE', 'TAB-FORMATTERS', 'SIB-CARET', 'SIB-SPLITLINES', 'OWN-RAWPUSH', 'PATH-LEVEL', 'PATH-EMIT-INDENT', 'INF-LEVEL', 'PATH-EMIT-ATTR'],
      explanation='Profile keys read by subscript exist in all three profiles and carry the documented punctuation (D); each syntax reaches its formatter (D).',
      not_decided=['tree equality with the HTML output; layout of multi-line text'],
      technique='reader/writer key agreement')
 
 prop('C16',
-     rules=[('SIB-QUOTE', ['css_matcher', 'html_matcher', 'scanner_utils']), 'SCN-CORE', ('SCN-OVER', MATCH_MODS), ('SCN-PROGRESS', MATCH_MODS), ('SCN-REST', MATCH_MODS), ('SCN-SKIP', MATCH_MODS), ('SCN-BLIND', MATCH_MODS), 'SIB-VOID', 'RNG-TRIM', 'RNG-ORDER', ('DEC-CHARCLASS', ['html_matcher', 'css_matcher', 'scanner_utils']),
+     rules=[('API-ARGSWAP', ['html_matcher', 'css_matcher', 'scanner_utils', 'scanner']), ('API-ONESHOT', ['html_matcher', 'css_matcher', 'scanner_utils', 'scanner']), ('RNG-NEGSLICE', ['html_matcher', 'css_matcher', 'scanner_utils', 'scanner']), ('SIB-PREDSWAP', ['html_matcher', 'css_matcher', 'scanner_utils', 'scanner']), ('OWN-GLOBAL', ['html_matcher', 'css_matcher', 'scanner_utils']), ('SIB-QUOTE', ['css_matcher', 'html_matcher', 'scanner_utils']), 'SCN-CORE', ('SCN-OVER', MATCH_MODS), ('SCN-PROGRESS', MATCH_MODS), ('SCN-REST', MATCH_MODS), ('SCN-SKIP', MATCH_MODS), ('SCN-BLIND', MATCH_MODS), 'SIB-VOID', 'RNG-TRIM', 'RNG-ORDER', ('DEC-CHARCLASS', ['html_matcher', 'css_matcher', 'scanner_utils']),
             ('PATH-FLAG', MATCH_MODS), ('CNT-DEPTH', MATCH_MODS), ('RNG-STOP', MATCH_MODS), 'RNG-SCANSTATE', ('RNG-FRAME', ['html_matcher']), 'SIB-HTMLSTACK', 'SIB-ESCAPE', 'SCN-ESCAPE', 'RNG-SENT', 'RNG-STRICT/html', 'RNG-STRICT/css', 'EXC-RAISE/matcher', 'EXC-THROWS', 'TBL-HTMLSCAN', 'TBL-CSSSCAN'],
      explanation='No explicit raise is reachable from the matchers (D); sentinel arithmetic guarded (N); strict containment (N).',
      not_decided=['relational clauses between match / balanced_outward / balanced_inward beyond predicate agreement'],
      technique='call-graph reachability; sentinel-flow analysis')
 
 prop('C17',
-     rules=[('SIB-QUOTE', ['css_matcher', 'html_matcher', 'scanner_utils']), ('OWN-AMBIENT', ['action_utils', 'html_matcher', 'css_matcher']), ('OWN-GLOBAL', ['action_utils', 'html_matcher', 'css_matcher']), ('RNG-SENT', ['action_utils']), 'RNG-STRICT/actions', 'EXC-RAISE/matcher', ('SCN-OVER', ['action_utils', 'css_matcher.parse', 'html_matcher.attributes']), ('SCN-PROGRESS', ['action_utils', 'css_matcher.parse', 'html_matcher.attributes']),
+     rules=[('API-ARGSWAP', ['action_utils', 'html_matcher', 'css_matcher', 'scanner_utils']), ('API-ONESHOT', ['action_utils', 'html_matcher', 'css_matcher', 'scanner_utils']), ('RNG-NEGSLICE', ['action_utils', 'html_matcher', 'css_matcher', 'scanner_utils']), ('SIB-PREDSWAP', ['action_utils', 'html_matcher', 'css_matcher', 'scanner_utils']), ('SIB-QUOTE', ['css_matcher', 'html_matcher', 'scanner_utils']), ('OWN-AMBIENT', ['action_utils', 'html_matcher', 'css_matcher']), ('OWN-GLOBAL', ['action_utils', 'html_matcher', 'css_matcher']), ('RNG-SENT', ['action_utils']), 'RNG-STRICT/actions', 'EXC-RAISE/matcher', ('SCN-OVER', ['action_utils', 'css_matcher.parse', 'html_matcher.attributes']), ('SCN-PROGRESS', ['action_utils', 'css_matcher.parse', 'html_matcher.attributes']),
             ('CNT-DEPTH', ['css_matcher.parse', 'action_utils']), 'RNG-TRIM', ('RNG-STOP', ['action_utils']), 'RNG-FRAME', ('DEC-CHARCLASS', ['html_matcher', 'css_matcher', 'scanner_utils']), ('SIB-HTMLSTACK', ['action_utils']), ('PIN-EXTRACT', ['action_utils']), 'TBL-ACTIONS', ('TBL-HTMLSCAN', ['html_matcher.attributes']), ('TBL-CSSSCAN', ['css_matcher.parse'])],
      explanation='The after offset of a declaration without ; and the open-tag containment test (N).',
      not_decided=['next/previous item selection logic'],
      technique='sentinel-flow analysis')
 
 prop('C18',
-     rules=['TBL-CSSABBR', ('TBL-NUMBER', ['css_abbreviation']), 'SCN-CORE', ('SCN-SPAN', TOK_MODS), ('SCN-REST', TOK_MODS), ('SCN-OVER', TOK_MODS), ('SCN-PROGRESS', TOK_MODS),
+     rules=[('API-ARGSWAP', ['abbreviation.tokenizer', 'css_abbreviation.tokenizer', 'scanner', 'scanner_utils']), ('API-ONESHOT', ['abbreviation.tokenizer', 'css_abbreviation.tokenizer', 'scanner', 'scanner_utils']), ('RNG-NEGSLICE', ['abbreviation.tokenizer', 'css_abbreviation.tokenizer', 'scanner', 'scanner_utils']), ('SIB-PREDSWAP', ['abbreviation.tokenizer', 'css_abbreviation.tokenizer', 'scanner', 'scanner_utils']), ('OWN-GLOBAL', ['abbreviation.tokenizer', 'css_abbreviation.tokenizer', 'scanner', 'scanner_utils']), 'TBL-CSSABBR', ('TBL-NUMBER', ['css_abbreviation']), 'SCN-CORE', ('SCN-SPAN', TOK_MODS), ('SCN-REST', TOK_MODS), ('SCN-OVER', TOK_MODS), ('SCN-PROGRESS', TOK_MODS),
             ('EXC-NUMCONV', TOK_MODS), ('EXC-RAISE/expand', TOK_MODS + ['scanner']), ('CNT-DEPTH', TOK_MODS), ('SCN-SKIP', TOK_MODS), ('SCN-BLIND', TOK_MODS), ('SIB-QUOTE', TOK_MODS), ('DEC-CHARCLASS', TOK_MODS + ['scanner_utils'])],
      explanation='(partial, SCN-* cursor discipline rules being built) digit runs are converted only after a successful run with start set.',
      not_decided=['span tiling until SCN-* exists'],
      technique='cursor discipline dataflow')
 
 prop('C19',
-     rules=[('TBL-NUMBER', ['math_expression']), 'EXC-RAISE/math', 'DEC-PRIO', 'TAB-MATHOPS', ('RNG-CLAMP', ['math_expression']), ('EXC-NUMCONV', ['math_expression']),
+     rules=[('API-ARGSWAP', ['math_expression', 'scanner_utils']), ('API-ONESHOT', ['math_expression', 'scanner_utils']), ('RNG-NEGSLICE', ['math_expression', 'scanner_utils']), ('SIB-PREDSWAP', ['math_expression', 'scanner_utils']), ('TBL-NUMBER', ['math_expression']), 'EXC-RAISE/math', 'DEC-PRIO', 'TAB-MATHOPS', ('RNG-CLAMP', ['math_expression']), ('EXC-NUMCONV', ['math_expression']),
             ('SCN-OVER', ['math_expression']), ('SCN-PROGRESS', ['math_expression']), ('SCN-REST', ['math_expression']),
             'RNG-BALANCED', ('RNG-ORDER', ['math_expression']), ('CNT-DEPTH', ['math_expression']), ('DEC-CHARCLASS', ['math_expression', 'scanner_utils']), ('OWN-GLOBAL', ['math_expression']), ('EXC-INDEX', ['math_expression'])],
      explanation='Only MathExpressionException is raised explicitly (D); the precedence table satisfies the documented orderings and a prefix sign never '
@@ -168,7 +168,7 @@ prop('C19',
      technique='finite priority table extraction; call-graph raise reachability')
 
 prop('C20',
-     rules=[('TBL-CONFIG', ['config', 'stylesheet.parse', 'stylesheet.get_snippets_for_scope', 'stylesheet.convert_snippets']), ('OWN-GLOBAL', ['stylesheet', 'config', 'snippets']), ('TAB-SNIPKEYS', ['snippets']), 'ORD-MERGE', 'TAB-KEYS-OPT', 'TAB-UNITS', 'TAB-SELFCLOSE', ('OWN-CALLER', ['config', 'expand']), ('OWN-GLOBAL', ['config', 'snippets', 'expand']), ('OWN-DEFAULT', ['config', 'expand'])],
+     rules=[('API-ARGSWAP', ['config', 'stylesheet', 'snippets', 'expand']), ('API-ONESHOT', ['config', 'stylesheet', 'snippets', 'expand']), ('RNG-NEGSLICE', ['config', 'stylesheet', 'snippets', 'expand']), ('SIB-PREDSWAP', ['config', 'stylesheet', 'snippets', 'expand']), ('TBL-CONFIG', ['config', 'stylesheet.parse', 'stylesheet.get_snippets_for_scope', 'stylesheet.convert_snippets']), ('OWN-GLOBAL', ['stylesheet', 'config', 'snippets']), ('TAB-SNIPKEYS', ['snippets']), 'ORD-MERGE', 'TAB-KEYS-OPT', 'TAB-UNITS', 'TAB-SELFCLOSE', ('OWN-CALLER', ['config', 'expand']), ('OWN-GLOBAL', ['config', 'snippets', 'expand']), ('OWN-DEFAULT', ['config', 'expand'])],
      explanation='The six layers are applied to a fresh dict in exactly the documented order, each looked up with a default or behind a membership guard, '
                  'no layer table or caller dict is written, Config passes (type, syntax, section, user, global) in that order and expand forwards the global config (D).',
      not_decided=[],
